@@ -1,6 +1,263 @@
 package main
 
-// tryReplay turns a solver model into a Go test against the real function. Filled in below.
+import (
+	"bytes"
+	"context"
+	"encoding/json"
+	"fmt"
+	"go/types"
+	"math/big"
+	"os"
+	"os/exec"
+	"path/filepath"
+	"strconv"
+	"strings"
+	"time"
+)
+
+// modelValues asks the solver that answered sat for the values of the given terms under the same query.
+func modelValues(q *Query, solverName, dir, tag string, terms []*Term, timeoutMs int) map[*Term]string {
+	q2 := &Query{Assumes: q.Assumes, Goal: q.Goal, Values: terms}
+	text, ok := q2.smtText(true, "")
+	if !ok {
+		return nil
+	}
+	var sp solverSpec
+	for _, s := range solvers {
+		if s.name == solverName {
+			sp = s
+		}
+	}
+	if sp.name == "" {
+		sp = solvers[0]
+	}
+	st, out, _ := runSolver(sp, text, dir, tag, timeoutMs)
+	if st != "sat" {
+		return nil
+	}
+	// answers come in the order of the get-value commands
+	res := map[*Term]string{}
+	vals := parseValueList(out)
+	for i, t := range terms {
+		if i < len(vals) {
+			res[t] = vals[i]
+		}
+	}
+	return res
+}
+
+// parseValueList returns the value part of each "((term value))" answer, in order.
+func parseValueList(out string) []string {
+	var vals []string
+	lines := strings.Split(out, "\n")
+	var cur strings.Builder
+	depth := 0
+	for _, l := range lines[1:] {
+		for _, c := range l {
+			if c == '(' {
+				depth++
+			} else if c == ')' {
+				depth--
+			}
+		}
+		cur.WriteString(l)
+		cur.WriteString(" ")
+		if depth == 0 {
+			s := strings.TrimSpace(cur.String())
+			cur.Reset()
+			if strings.HasPrefix(s, "((") && strings.HasSuffix(s, "))") {
+				s = s[2 : len(s)-2]
+				i := sexprEnd(s)
+				if i > 0 && i <= len(s) {
+					vals = append(vals, strings.TrimSpace(s[i:]))
+				}
+			}
+		}
+	}
+	return vals
+}
+
+// goLiteral renders a model value as Go source for the given type.
+func goLiteral(q *Query, solver, dir string, tv TV, timeoutMs int) (string, error) {
+	t := tv.T
+	switch v := tv.V.(type) {
+	case Scalar:
+		switch v.T.Sort {
+		case SBool:
+			m := modelValues(q, solver, dir, "rv", []*Term{v.T}, timeoutMs)
+			if m == nil {
+				return "", fmt.Errorf("no model value")
+			}
+			return m[v.T], nil
+		case SInt:
+			m := modelValues(q, solver, dir, "rv", []*Term{v.T}, timeoutMs)
+			if m == nil {
+				return "", fmt.Errorf("no model value")
+			}
+			n, ok := modelInt(m[v.T])
+			if !ok {
+				return "", fmt.Errorf("unparsable model value %q", m[v.T])
+			}
+			if t != nil {
+				return fmt.Sprintf("%s(%s)", types.TypeString(t, func(p *types.Package) string { return p.Name() }), n.String()), nil
+			}
+			return n.String(), nil
+		case SStr:
+			if lit, ok := strLitOf[v.T]; ok {
+				return strconv.Quote(lit), nil
+			}
+			l := UF("slen", SInt, v.T)
+			m := modelValues(q, solver, dir, "rv", []*Term{l}, timeoutMs)
+			if m == nil {
+				return "", fmt.Errorf("no model value")
+			}
+			n, ok := modelInt(m[l])
+			if !ok || n.Sign() < 0 {
+				return "", fmt.Errorf("bad string length %q", m[l])
+			}
+			if n.Cmp(big.NewInt(1<<20)) > 0 {
+				return "", fmt.Errorf("model string too long (%s bytes)", n)
+			}
+			ln := int(n.Int64())
+			var cs []*Term
+			for i := 0; i < ln; i++ {
+				cs = append(cs, UF("sat", SInt, v.T, IntLit(int64(i))))
+			}
+			buf := make([]byte, ln)
+			if ln > 0 {
+				m2 := modelValues(q, solver, dir, "rv", append([]*Term{l}, cs...), timeoutMs)
+				if m2 == nil {
+					return "", fmt.Errorf("no model value for characters")
+				}
+				for i, c := range cs {
+					cv, ok := modelInt(m2[c])
+					if !ok {
+						return "", fmt.Errorf("bad char value")
+					}
+					buf[i] = byte(cv.Int64() & 0xff)
+				}
+			}
+			return strconv.Quote(string(buf)), nil
+		}
+	}
+	return "", fmt.Errorf("unsupported replay argument of type %T", tv.V)
+}
+
+// tryReplay turns a solver model into a Go test that calls the contract's replay builder on the
+// model's inputs, and runs it against the real code (go test -overlay, nothing written to the repo).
 func tryReplay(cr *checkRun, o *Obligation) (bool, string, string) {
-	return false, "", "replay not available for this obligation"
+	if o.ReplayFn == "" || o.ReplayPkg == nil {
+		return false, "", "no replay builder declared for this function"
+	}
+	// model minimisation: prefer counterexamples with small lengths (and small strings)
+	q := o.Q
+	for _, bound := range []int64{4, 16, 256} {
+		var extra []*Term
+		for i, a := range o.ReplayArgs {
+			if s, ok := a.V.(Scalar); ok {
+				if s.T.Sort == SInt && i < len(o.ReplayLen) && o.ReplayLen[i] {
+					extra = append(extra, Le(s.T, IntLit(bound)))
+				}
+				if s.T.Sort == SStr {
+					extra = append(extra, Le(UF("slen", SInt, s.T), IntLit(bound)))
+				}
+			}
+		}
+		if len(extra) == 0 {
+			break
+		}
+		q2 := &Query{Assumes: append(append([]*Term{}, o.Q.Assumes...), extra...), Goal: o.Q.Goal}
+		if text, ok := q2.smtText(false, ""); ok {
+			var sp solverSpec
+			for _, s := range solvers {
+				if s.name == o.Res.Solver {
+					sp = s
+				}
+			}
+			if sp.name == "" {
+				sp = solvers[0]
+			}
+			if st, _, _ := runSolver(sp, text, cr.smtDir, "min", cr.timeoutMs); st == "sat" {
+				q = q2
+				break
+			}
+		}
+	}
+	var args []string
+	for _, a := range o.ReplayArgs {
+		lit, err := goLiteral(q, o.Res.Solver, cr.smtDir, a, cr.timeoutMs)
+		if err != nil {
+			return false, "", "cannot build inputs from the model: " + err.Error()
+		}
+		args = append(args, lit)
+	}
+	pkgName := o.ReplayPkg.Name()
+	test := fmt.Sprintf("//go:build verif\n\npackage %s\n\nimport \"testing\"\n\n// generated by vcgo from the solver's counterexample for %s\nfunc TestVerifReplay(t *testing.T) {\n\tif err := %s(%s); err != nil {\n\t\tt.Fatal(err)\n\t}\n}\n",
+		pkgName, o.Name, o.ReplayFn, strings.Join(args, ", "))
+	ok, out := runReplayTest(cr.prog.RepoDir, cr.prog.Scratch, o.ReplayPkg.Path(), cr.prog.ModPath, test)
+	return ok, test, out
+}
+
+// runReplayTest returns true when the test FAILS (the violation reproduces on the real code).
+func runReplayTest(repo, scratch, pkgPath, modPath, test string) (bool, string) {
+	rel := strings.TrimPrefix(strings.TrimPrefix(pkgPath, modPath), "/")
+	tf := filepath.Join(scratch, "zz_verif_replay_test.go")
+	if err := os.WriteFile(tf, []byte(test), 0644); err != nil {
+		return false, err.Error()
+	}
+	ov := map[string]map[string]string{"Replace": {filepath.Join(repo, rel, "zz_verif_replay_test.go"): tf}}
+	ob, _ := json.Marshal(ov)
+	of := filepath.Join(scratch, "overlay.json")
+	os.WriteFile(of, ob, 0644)
+	if _, err := os.Stat(filepath.Join(scratch, "repo.mod")); err != nil {
+		copyFile(filepath.Join(repo, "go.mod"), filepath.Join(scratch, "repo.mod"))
+		copyFile(filepath.Join(repo, "go.sum"), filepath.Join(scratch, "repo.sum"))
+	}
+	ctx, cancel := context.WithTimeout(context.Background(), 180*time.Second)
+	defer cancel()
+	cmd := exec.CommandContext(ctx, "go", "test", "-tags", "verif", "-modfile="+filepath.Join(scratch, "repo.mod"), "-overlay", of, "-vet=off", "-count=1", "-timeout", "60s", "-run", "^TestVerifReplay$", "./"+rel)
+	cmd.Dir = repo
+	cmd.Env = goEnv(scratch)
+	var buf bytes.Buffer
+	cmd.Stdout = &buf
+	cmd.Stderr = &buf
+	err := cmd.Run()
+	out := buf.String()
+	if len(out) > 6000 {
+		out = out[:6000] + "…"
+	}
+	failed := err != nil && (strings.Contains(out, "--- FAIL") || strings.Contains(out, "panic:") || strings.Contains(out, "fatal error:"))
+	return failed, out
+}
+
+// cmdReplay re-runs the generated test stored in a replay file.
+func cmdReplay(args []string) {
+	if len(args) != 1 {
+		fmt.Fprintln(os.Stderr, "usage: vcgo replay <file>")
+		os.Exit(2)
+	}
+	var rec map[string]interface{}
+	if err := loadJSON(args[0], &rec); err != nil {
+		fmt.Fprintln(os.Stderr, err)
+		os.Exit(2)
+	}
+	fmt.Printf("obligation: %v\nreason: %v\n", rec["obligation"], rec["reason"])
+	test, _ := rec["replay_test"].(string)
+	if test == "" {
+		fmt.Println("no failing input was constructed for this obligation; solver output follows")
+		fmt.Println(rec["solver_output"])
+		os.Exit(1)
+	}
+	pkg, _ := rec["replay_pkg"].(string)
+	scratch, _ := makeScratch()
+	defer os.RemoveAll(scratch)
+	repo := repoDir()
+	mod, _ := rec["module"].(string)
+	failed, out := runReplayTest(repo, scratch, pkg, mod, test)
+	fmt.Println(out)
+	if failed {
+		fmt.Println("REPRODUCED: the real code violates the obligation on the recorded input")
+		os.Exit(1)
+	}
+	fmt.Println("not reproduced on the current tree")
 }
